@@ -96,8 +96,17 @@ package account
 //@   modifies allbut("rawWrites", SafeAccount)
 //@ func NewCodeLog   trusted
 //@   modifies allbut("rawWrites", SafeAccount)
-//@ func NewEquityLog   trusted
+// the equity log: the constructor produces an old value that is either absent (the entry is created by this write) or an
+// *AssetEquity; undo must accept both -- a revert never fails on a log the journal itself made
+//@ func NewEquityLog
+//@   props C07
+//@   requires processor != nil
 //@   modifies allbut("rawWrites", SafeAccount)
+//@   ensures result1 == nil ==> result0 != nil && (result0.OldVal == nil || typeIs(result0.OldVal, *types.AssetEquity)) && typeIs(result0.Extra, common.Hash)
+//@ func undoEquity
+//@   props C07
+//@   requires c != nil && processor != nil
+//@   ensures (c.OldVal == nil || typeIs(c.OldVal, *types.AssetEquity)) && typeIs(c.Extra, common.Hash) ==> result != types.ErrWrongChangeLogData
 //@ func NewSignerLog   trusted
 //@   modifies allbut("rawWrites", SafeAccount)
 //@ func NewStorageLog   trusted
